@@ -148,6 +148,25 @@ def op_pairadd(a, b):
     return (a[0] + b[0], a[1] + b[1])
 
 
+def _inner(a):
+    if type(a) not in (list, tuple) or not a or type(a[0]) is not list:  # pylint: disable=unidiomatic-typecheck
+        raise TypeError('nested accumulator expected')
+    return _guard(a[0])
+
+
+def op_inner_append(a, x):
+    """in place on the INNER list of a nested accumulator; returns the accumulator"""
+    _inner(a).append(x)
+    return a
+
+
+def op_inner_extend(a, b):
+    """in place on the INNER list of a nested accumulator; returns the accumulator"""
+    la, lb = _inner(a), _inner(b)
+    la.extend(list(lb))
+    return a
+
+
 OP = [
     ('op_add', lambda a, b: _guard(a + b)),
     ('op_max', op_max),
@@ -160,9 +179,12 @@ OP = [
     ('op_count', lambda a, x: a + 1),
     ('op_sumcount', op_sumcount),
     ('op_pairadd', op_pairadd),
+    ('op_inner_append', op_inner_append),
+    ('op_inner_extend', op_inner_extend),
 ]
-OP_ADD, OP_MAX, OP_MUL, OP_SUB, OP_FIRST, OP_LAST, OP_EXTEND, OP_APPEND, OP_COUNT, OP_SUMCOUNT, OP_PAIRADD = range(11)
+OP_ADD, OP_MAX, OP_MUL, OP_SUB, OP_FIRST, OP_LAST, OP_EXTEND, OP_APPEND, OP_COUNT, OP_SUMCOUNT, OP_PAIRADD, OP_INNER_APPEND, OP_INNER_EXTEND = range(13)
 ASSOC_OPS = {OP_ADD, OP_MAX, OP_MUL, OP_FIRST, OP_LAST, OP_EXTEND, OP_PAIRADD}
+NESTED_ZEROS = [[[]], ([], [0]), [[], [1]], ([], ('k', [])), [[], [[]]]]
 
 
 def mp_dup(it):
@@ -422,6 +444,12 @@ def lawful_agg(z, seq, comb, xs):
         return z == [] and all_t(list)
     if (seq, comb) == (OP_APPEND, OP_EXTEND):
         return z == [] and type(z) is list  # pylint: disable=unidiomatic-typecheck
+    def nested_zero(v):
+        return type(v) in (list, tuple) and len(v) >= 1 and type(v[0]) is list and v[0] == []  # pylint: disable=unidiomatic-typecheck
+    if (seq, comb) == (OP_INNER_APPEND, OP_INNER_EXTEND):
+        return nested_zero(z)
+    if seq == comb == OP_INNER_EXTEND:
+        return nested_zero(z) and all(type(x) in (list, tuple) and len(x) >= 1 and type(x[0]) is list for x in xs)  # pylint: disable=unidiomatic-typecheck
     if (seq, comb) == (OP_COUNT, OP_ADD):
         return z == 0 and type(z) is int  # pylint: disable=unidiomatic-typecheck
     if (seq, comb) == (OP_SUMCOUNT, OP_PAIRADD):
@@ -500,6 +528,33 @@ def _same(a, b):
     return a == b
 
 
+def _mutable(v):
+    return isinstance(v, list) or (isinstance(v, tuple) and any(_mutable(x) for x in v))
+
+
+def _zero_after(case):
+    """run the pipeline once more on the implementation, keeping the zero value object that is handed to
+    fold/aggregate, and return it as it is after the call (Err if the run raises)"""
+    try:
+        ctx = Context()
+        if is_layout(case):
+            layout, ops, act = case
+            rdd = ctx._parallelize_partitions(iter(copy.deepcopy(layout)))  # pylint: disable=protected-access
+        else:
+            xs, n, ops, act = case
+            rdd = ctx.parallelize(copy.deepcopy(xs), n)
+        for op in ops:
+            rdd = _stage(ctx, rdd, op)
+        z = copy.deepcopy(act[1])
+        if act[0] == A_FOLD:
+            rdd.fold(z, OP[act[2]][1])
+        else:
+            rdd.aggregate(z, OP[act[2]][1], OP[act[3]][1])
+        return z
+    except Exception as e:  # pylint: disable=broad-except
+        return Err(type(e).__name__)
+
+
 def oracle(case, result):
     """The statement of C01 evaluated on the implementation's observations alone."""
     if is_sweep(case):
@@ -572,6 +627,10 @@ def oracle(case, result):
         if not isinstance(obs, float) or abs(obs - m) > 1e-9 * max(1.0, abs(m)):
             return ('mean:value', f'mean of {cur!r} gave {obs!r}; sum/len = {m!r}')
         return None
+    if act[0] in (A_FOLD, A_AGGREGATE) and _mutable(act[1]):
+        after = _zero_after(case)
+        if not _same(after, act[1]):
+            return (f'{name}:zero-mutated', f'{name}{act[1:]!r} on {cur!r}: the caller\'s zero value is {after!r} afterwards')
     if not _same(obs, exp):
         return (f'{name}:value', f'{name}{act[1:]!r} on {cur!r} (n={n}) gave {obs!r}; plain evaluation gives {exp!r}')
     return None
@@ -699,7 +758,8 @@ def gen_action(rng, cur):
     ch = [(A_COLLECT,), (A_COUNT,), (A_FIRST,), (A_TAKE, rng.randint(0, n_el + 2)), (A_TOLOCALITERATOR,),
           (A_COUNTBYVALUE,), (A_AGGREGATE,) + AGGS[0], (A_AGGREGATE,) + AGGS[1], (A_REDUCE, OP_FIRST), (A_REDUCE, OP_LAST),
           (A_FOLD, None, OP_FIRST), (A_TOP, rng.randint(0, n_el + 1), 4), (A_TAKEORDERED, rng.randint(0, n_el + 1), 4),
-          (A_SUM,), (A_LOOKUP, rng.choice([0, 1, 'a', 2]))]
+          (A_SUM,), (A_LOOKUP, rng.choice([0, 1, 'a', 2])),
+          (A_AGGREGATE, rng.choice(NESTED_ZEROS), OP_INNER_APPEND, OP_INNER_EXTEND)]
     if ints:
         ch += [(A_SUM,), (A_MIN,), (A_MAX,), (A_MEAN,), (A_COUNTBYVALUE,)] * 2
         ch += [(A_REDUCE, o) for o in (OP_ADD, OP_MAX, OP_MUL, OP_SUB)]
@@ -943,6 +1003,21 @@ def generate(rng, tier):
             cases.append((copy.deepcopy(xs), n, [(T_KEYS,)], (A_COUNTBYVALUE,)))
             cases.append((copy.deepcopy(xs), n, [(T_ZIP, [7, 8, 9], n)], (A_COLLECT,)))
             cases.append((copy.deepcopy(xs), n, [(T_FILTER, 5), (T_ZIP, [(0, 1), (0, 2), (1, 3)], n)], (A_COLLECTASMAP,)))
+    # NESTED mutable zero values with operators that mutate the inner container in place (a shallow copy of
+    # the zero per task shares the inner lists between tasks and with the caller): exhaustive, both tiers
+    for z in NESTED_ZEROS:
+        for xs in _inputs_upto([1, 2], 3):
+            for n in range(1, len(xs) + 3):
+                cases.append((copy.deepcopy(xs), n, [], (A_AGGREGATE, copy.deepcopy(z), OP_INNER_APPEND, OP_INNER_EXTEND)))
+        for xs in _inputs_upto([[[1]], [[2], 'r'], ([3], 0)], 3):
+            for n in range(1, len(xs) + 3):
+                cases.append((copy.deepcopy(xs), n, [], (A_FOLD, copy.deepcopy(z), OP_INNER_EXTEND)))
+                if len(xs) >= 2:
+                    cases.append((copy.deepcopy(xs), n, [(T_MAP, 0)], (A_AGGREGATE, copy.deepcopy(z), OP_INNER_EXTEND, OP_INNER_EXTEND)))
+    for xs in ([[[i]] for i in range(6)], [[[i, i]] for i in range(9)]):
+        for n in (1, 2, 3, 4, 7):
+            for z in NESTED_ZEROS[:3]:
+                cases.append((copy.deepcopy(xs), n, [], (A_FOLD, copy.deepcopy(z), OP_INNER_EXTEND)))
     # None / falsy elements (an "is this partition empty" test must not look at the values): exhaustive
     for xs in _inputs_upto([None, 0, 2], 3):
         for n in range(1, len(xs) + 3):
@@ -999,6 +1074,73 @@ def shrink_candidates(case):
         yield (xs, 2, ops, act)
     if act[0] != A_COLLECT:
         yield (xs, n, ops, (A_COLLECT,))
+
+
+def _dict_merge(a, b):
+    """in place on the inner containers of {'k': [...]} / [[...], {...}] accumulators"""
+    if isinstance(a, dict):
+        if isinstance(b, dict):
+            for k, v in b.items():
+                a.setdefault(k, []).extend(v)
+        else:
+            a.setdefault('k', []).append(b)
+        return a
+    if isinstance(b, list) and len(b) == 2 and isinstance(b[1], dict):
+        a[0].extend(b[0])
+        for k, v in b[1].items():
+            a[1][k] = a[1].get(k, 0) + v
+    else:
+        a[0].append(b)
+        a[1][b % 2] = a[1].get(b % 2, 0) + 1
+    return a
+
+
+def extra_checks(rng, tier, workdir):
+    """Nested mutable zero values outside the model's value domain (dicts) and the other entry points of the
+    same machinery (treeAggregate, foldByKey, aggregateByKey): the result equals the plain-list fold for every
+    slice count and the caller's zero object is unchanged afterwards.  Oracle only (no Coq side)."""
+    data = [3, 1, 4, 1, 5, 9, 2, 6]
+    zeros = [{'k': []}, [[], {}]]
+    for z in zeros:
+        want = functools.reduce(_dict_merge, data, copy.deepcopy(z))
+        for n in (1, 2, 3, 4, 8, 11):
+            for name in ('fold', 'aggregate', 'treeAggregate'):
+                zz = copy.deepcopy(z)
+                try:
+                    rdd = Context().parallelize(list(data), n)
+                    if name == 'fold':
+                        got = rdd.fold(zz, _dict_merge)
+                    elif name == 'aggregate':
+                        got = rdd.aggregate(zz, _dict_merge, _dict_merge)
+                    else:
+                        got = rdd.treeAggregate(zz, _dict_merge, _dict_merge)
+                except Exception as e:  # pylint: disable=broad-except
+                    got = Err(type(e).__name__)
+                if got != want:
+                    yield (f'{name}:nested-zero-value', f'{name}({z!r}, in-place merge), {n} slices', f'gave {got!r}, plain fold gives {want!r}', None)
+                elif zz != z:
+                    yield (f'{name}:zero-mutated', f'{name}({z!r}, in-place merge), {n} slices', f'caller\'s zero is {zz!r} afterwards', None)
+    pairs = [(k % 3, k) for k in data]
+    for z in ([[]], ([], [0])):
+        want = {}
+        for k, v in pairs:
+            want[k] = op_inner_append(want[k] if k in want else copy.deepcopy(z), v)
+        for n in (1, 2, 3, 5, 8):
+            for name in ('foldByKey', 'aggregateByKey'):
+                zz = copy.deepcopy(z)
+                try:
+                    if name == 'foldByKey':     # one operator for values and partial results: values shaped like the zero
+                        rdd = Context().parallelize([(k, [[v]]) for k, v in pairs], n)
+                        got = dict(rdd.foldByKey(zz, op_inner_extend).collect())
+                    else:
+                        rdd = Context().parallelize(list(pairs), n)
+                        got = dict(rdd.aggregateByKey(zz, op_inner_append, op_inner_extend).collect())
+                except Exception as e:  # pylint: disable=broad-except
+                    got = Err(type(e).__name__)
+                if got != want:
+                    yield (f'{name}:nested-zero-value', f'{name}({z!r}, inner append), {n} slices', f'gave {got!r}, expected {want!r}', None)
+                elif zz != z:
+                    yield (f'{name}:zero-mutated', f'{name}({z!r}, inner append), {n} slices', f'caller\'s zero is {zz!r} afterwards', None)
 
 
 def extra_evidence():
